@@ -15,7 +15,13 @@ namespace verif {
  *   "h_insert"  c row pred
  *   "h_shift"   (c x)*                       (after the move: new abscissas)
  *   "h_reorder" n c*n m (row pred k (c x)*k)*m
+ *   "h_window"  n c*n m (row pred next minPos maxPos)*m nbLeaves improvement
+ *               bestValHi bestValLo        (H3b: at the end of every
+ *               RowReordering::run, after writeback; cells as sorted by run;
+ *               nbLeaves = number of evaluated leaves; best value =
+ *               bestValHi * 2^31 + bestValLo)
  */
+#define COLOQUINTE_VERIF_DETAILED_OPLOG_WINDOWS 1
 extern void (*onDetailedOp)(const char *kind, const int *args, int nbArgs);
 }  // namespace verif
 #endif
